@@ -205,6 +205,29 @@ theorem slice_of_slice (n : Nat) (a1 b1 c1 a2 b2 c2 : Option Int) (hn : n < 1844
 example : pyAxis 10 (some 1) (some 9) (some 2) = some (4, 1, 2) ∧ pyAxis 4 none none (some (-1)) = some (4, 3, -1) := by decide
 example : computeIndex 10 (some 1) (some 9) (some 2) (computeIndex 4 none none (some (-1)) 0) = 7 := by decide
 
+/-- a slice view of a slice view (`a[es1][es2]`, any rank): for every pair of valid basic indices the inner result exists,
+    every element of the outer result reads an element of the inner result that exists, and through it a source element
+    inside the source shape, both given by the reference maps -/
+theorem slice_of_slice_view (src : List Nat) (es1 es2 : List Entry) (h1 : domEntries src es1 = true)
+    (mid : List Nat) (hm : shapeDynamicSlice src es1 = some mid) (h2 : domEntries mid es2 = true) :
+    ∃ sels1 sels2, specSlice src es1 = some sels1 ∧ specSlice mid es2 = some sels2 ∧ mid = specShape sels1 ∧
+      shapeDynamicSlice mid es2 = some (specShape sels2) ∧
+      ∀ d, InShape d (specShape sels2) →
+        ∃ m i, specIdx sels2 d = some m ∧ dynamicSlice mid es2 d = some m ∧ InShape m mid ∧
+          specIdx sels1 m = some i ∧ dynamicSlice src es1 m = some i ∧ InShape i src := by
+  obtain ⟨sels1, a1, a2, a3⟩ := dynamic_slice_eq_python src es1 h1
+  obtain ⟨sels2, b1, b2, b3⟩ := dynamic_slice_eq_python mid es2 h2
+  rw [a2] at hm
+  cases hm
+  refine ⟨sels1, sels2, a1, b1, rfl, b2, ?_⟩
+  intro d hd
+  obtain ⟨m, c1, c2, c3⟩ := b3 d hd
+  obtain ⟨i, e1, e2, e3⟩ := a3 m c3
+  exact ⟨m, i, c1, c2, c3, e1, e2, e3⟩
+
+example : shapeDynamicSlice [4, 5] [.int 1, .range (some 0) (some 5) (some 2)] = some [3] ∧
+    domEntries [3] [.range (some 2) (some 0) (some (-1))] = true := by decide
+
 /-! ## no two result elements alias one source element (mutable_slice writes are independent) -/
 
 /-- packed encoding: the element map of every valid basic index is injective on the result shape -/
